@@ -174,11 +174,11 @@ def main():
     ran = []
     for cls, o in runs:
         if cls == "run":
-            ran = ["%s %s n=%d t=%d vals=%d%s (%.0fs)" % (c.get("algo"), c.get("flow"), c["n"], c["t"], c["vals"], ("+%d" % c["add"]) if c.get("add") else "", c.get("seconds", 0))
+            ran = ["%s %s n=%d t=%d vals=%d%s%s (%.0fs)" % (c.get("algo"), c.get("flow"), c["n"], c["t"], c["vals"], ("+%d" % c["add"]) if c.get("add") else "", " no-verify" if c.get("no_verify") else "", c.get("seconds", 0))
                    for c in (o.get("ceremonies") or [])]
     R.coverage["input_distribution"] = {"ceremonies": dist, "validators_checked_in_coq": len(rows), "go_checks": checks,
                                         "full_dkg_run_scenarios_this_run": ran,
-                                        "full_dkg_run_note": "quick runs ONE append scenario (plain ceremony + add-validators, artefacts of both checked), rotating frost / pedersen / default by seed, plus one small plain ceremony of the other algorithm; thorough runs frost and pedersen plain ceremonies and two append scenarios"}
+                                        "full_dkg_run_note": "quick runs ONE append scenario (plain ceremony + add-validators, artefacts of both checked), rotating frost / pedersen / default by seed, plus one plain ceremony of the other algorithm with a LOW threshold (n=4 t=2 / n=5 t=3 / n=5 t=2, rotating) and NoVerify=true; thorough runs frost and pedersen plain ceremonies, two append scenarios, the lossy scenarios and all low-threshold configurations with NoVerify true and false"}
     samples = []
     for cls, o in runs:
         for c in (o.get("ceremonies") or []):
